@@ -8,7 +8,7 @@ from . import scheme as S
 
 def write_cfg(path, maxsteps=20000, gc=False):
     with open(path, "w") as f:
-        f.write("CONSTANTS\n  GC = %s\n  NonTailIf = FALSE\n  MaxSteps = %d\nSPECIFICATION TSpec\nINVARIANT TDone\nCHECK_DEADLOCK FALSE\n" %
+        f.write("CONSTANTS\n  GC = %s\n  Broken = \"none\"\n  MaxSteps = %d\nSPECIFICATION TSpec\nINVARIANT TDone\nCHECK_DEADLOCK FALSE\n" %
                 ("TRUE" if gc else "FALSE", maxsteps))
 
 
